@@ -646,6 +646,10 @@ def run(ctx):
             ctx.stats[f'scenario_s:{si}:{kind}:{N}:{mode}'] = round(time.time() - t0, 1)
     finally:
         P.time = real_time
+    # the concrete pop policy: libstdc++'s binary heap over operator< (scores only) is category-blind (P_DSearch.v C11_d_*), and the
+    # deterministic twin built on it predicts the real pop order, ties included, from the problem alone
+    import dsearch_cases
+    dsearch_cases.run_dsearch(ctx, 500 if ctx.quick else 12000)
     ctx.trusted += ['memo model coq/GlueMemo.v (tied to parsing.pyx/parsing.h: replay of the recorded rule-function invocations gives the real final category table and the real cache entries)',
                     'chunk model coq/GlueMemo.v chunks_py (tied to parsing.py _chunks exactly for all lengths 0..60 x 0..8 chunks, the ValueError of the empty list included)',
                     'wrapper model coq/GlueMemoRun.v run (tied to parsing.py run with depccg._parsing.run replaced by a probe: branch taken, chunk sizes, process ids, result order, exception class for well-formed and malformed inputs, processes -1..4, max_chunk_size -1..100, real multiprocessing.Pool); its _type_check part is coq/Filter.v (tied in C17)',
@@ -660,7 +664,7 @@ def run(ctx):
              'non-trivial = a multi-token sentence compared at a position/history other than alone; distinct by (scenario, schedule, position)',
         assumptions=['what the model cannot exhibit - OS scheduling of the worker processes and pickling of arguments/results inside multiprocessing - is exercised (Pool really forks; slow first chunks make later chunks finish first), not proved',
                      'the wait loop of depccg.parsing.run naps with time.sleep(1); the harness shortens the nap to 20 ms (pacing only)',
-                     'the set of possible results of a sentence is proved history-independent end to end (C11_batch_equals_alone, C11_same_sentence_same_result_under_any_history); WHICH of several equal-priority pops the std::priority_queue takes is not modelled: that the same heap makes the same choice in every history is confirmed by the oracle on rows with equal scores, not proved; the order of equal tag scores is by lexical id = position in the input category list, which no history changes',
+                     'the set of possible results of a sentence is proved history-independent end to end (C11_batch_equals_alone, C11_same_sentence_same_result_under_any_history); WHICH of several equal-priority pops the std::priority_queue takes is modelled by coq/Heap.v + DSearch.v (literal libstdc++ sift-up/sift-down, tied to the real library and to the real pop traces, ties included) and proved to depend on the scores only (C11_d_search_is_category_blind: a bi-unique renaming of the derived category ids gives position-wise related traces and equal scores); this is proved for the search with fixed rule functions - threading the blind twin through the incremental memo (mreach_p) is not done, the oracle on rows with equal scores covers it; the order of equal tag scores is by lexical id = position in the input category list, which no history changes',
                      'an element-type mismatch (float64) is detected when the sentence is reached, not up front: checked only as "raises; nothing parsed if it is the first sentence"',
                      'depccg._parsing.run is a parameter of the wrapper model; "per sentence" (C11_chunked_equals_unchunked) is what C11_batch_equals_alone says of its loop up to the tie-breaking above',
                      'math.ceil(len/num) is float division in Python, integer ceiling in the model: identical for every list a machine can hold below 2^53 elements'])
